@@ -125,6 +125,7 @@ Lemma seg_emit_R sp bytes : SM (emit sp bytes).
 Proof.
   intro c. unfold emit. destruct (current_segment c) as [name|]; [|apply R_refl].
   destruct (seg_get (segments c) name) as [seg|] eqn:EG; [|exact I]. destruct (target_pc seg); [|exact I].
+  destruct (two64 <=? z + Z.of_nat (length bytes)); [exact I|].
   destruct (seg_emit seg bytes) as [seg'| |] eqn:EE; [|apply R_refl|exact I].
   intros Inv n s H. cbn [segments set_segments log g_trace writes_of] in *.
   destruct (ident_eqb name n) eqn:En.
